@@ -258,3 +258,11 @@ pub fn c05_inc_guards() {
 pub(crate) fn stub_transition_after_unreachable(_c: &mut Counts, _s: store::Ptr, _r: bool) {
     panic!("UNREACHABLE-STUB Counts::transition_after")
 }
+
+pub(crate) fn set_budget(c: &mut Counts, available: usize, max: usize, empties: usize) {
+    c.data_frame_budget = Budget { available, max };
+    c.num_recv_empty_data_frames = empties;
+}
+pub(crate) fn get_budget(c: &Counts) -> (usize, usize) {
+    (c.data_frame_budget.available, c.num_recv_empty_data_frames)
+}
